@@ -1775,6 +1775,8 @@ func (rn *Runner) Run() {
 				var b []byte
 				b, oerr = os.ReadFile(path)
 				out.Write(b)
+			}
+			if path != "" {
 				_ = os.Remove(path)
 			}
 			n = int64(out.Len())
